@@ -205,6 +205,13 @@ private:
         return cpp_keywords.count(str);
     }
 
+    static bool is_generated_code_name(const std::string_view str)
+    {
+        // template parameter names of the generated classes and accessors, an
+        // entity with such a name would redeclare them
+        return (str == "Byte") || (str == "Cursor") || (str == "T");
+    }
+
     static bool is_reserved_cpp_identifier(const std::string_view str)
     {
         if(str.find("__") != std::string_view::npos)
@@ -237,6 +244,12 @@ private:
         if(is_cpp_keyword(name))
         {
             throw_error("{}: `{}` is not a valid C++ name", location, name);
+        }
+
+        if(is_generated_code_name(name))
+        {
+            throw_error(
+                "{}: `{}` is reserved for the generated code", location, name);
         }
 
         warn_about_reserved_identifier(name, location);
